@@ -1252,6 +1252,7 @@ pub const BUGS: &[&str] = &[
     "palette-shift-a",
     "palette-shift-b",
     "tilemap-bomb-with-links",
+    "deep-nesting-closed",
 ];
 
 fn ensure_tilemap(s: &mut SpriteSpec, r: &mut Rng) -> usize {
@@ -1627,7 +1628,7 @@ pub fn apply_bug(s: &mut SpriteSpec, bug: &str, r: &mut Rng, scale: usize) -> St
             s.layers[i].level = v;
             format!("layer {} child level {}", i, v)
         }
-        "deep-nesting" => {
+        "deep-nesting" | "deep-nesting-closed" => {
             let n = scale.max(2);
             let base = s.layers.len();
             for k in 0..n {
@@ -1644,7 +1645,7 @@ pub fn apply_bug(s: &mut SpriteSpec, bug: &str, r: &mut Rng, scale: usize) -> St
             }
             // half of the time the chain is followed by a layer that closes (almost) all levels at
             // once, and by one that reopens a level below it
-            if r.chance(1, 2) {
+            if bug == "deep-nesting-closed" || r.chance(1, 2) {
                 let lv = r.below(3) as u16;
                 s.layers.push(LayerSpec {
                     flags: 1,
